@@ -117,6 +117,8 @@ func readLine(reader *bufio.Reader) ([]byte, error) {
 	if !isPrefix {
 		return line, err
 	}
+	// line is a view of the reader's buffer, which the next ReadLine overwrites
+	line = append([]byte(nil), line...)
 	for {
 		b, isPrefix, err := reader.ReadLine()
 		if err != nil {
